@@ -121,6 +121,8 @@ impl<B: Backend> AudioManager<B> {
 		let (mut track, handle) =
 			builder.build(self.renderer_shared.clone(), self.internal_buffer_size);
 		track.init_effects(self.renderer_shared.sample_rate.load(Ordering::SeqCst));
+		#[cfg(kira_verif)]
+		crate::verif_hooks::yield_point("add_track.after_sample_rate_load");
 		self.resource_controllers
 			.sub_track_controller
 			.insert(track)?;
@@ -141,6 +143,8 @@ impl<B: Backend> AudioManager<B> {
 			position.into().to_(),
 		);
 		track.init_effects(self.renderer_shared.sample_rate.load(Ordering::SeqCst));
+		#[cfg(kira_verif)]
+		crate::verif_hooks::yield_point("add_track.after_sample_rate_load");
 		self.resource_controllers
 			.sub_track_controller
 			.insert(track)?;
@@ -159,6 +163,8 @@ impl<B: Backend> AudioManager<B> {
 		let id = SendTrackId(key);
 		let (mut track, handle) = builder.build(id, self.internal_buffer_size);
 		track.init_effects(self.renderer_shared.sample_rate.load(Ordering::SeqCst));
+		#[cfg(kira_verif)]
+		crate::verif_hooks::yield_point("add_track.after_sample_rate_load");
 		self.resource_controllers
 			.send_track_controller
 			.insert_with_key(key, track);
